@@ -64,7 +64,7 @@ def gen_value(r):
 
 def gen_table(r, maxres=12):
     """-> list of ops: ('R', path, flags, [(name, val)...]) | ('D', path)"""
-    n = r.choice([0, 1, 1, 2, 2, 3, 3, 4, 5, 6, 8, 10, 12])
+    n = r.choice([0, 1, 1, 2, 2, 3, 3, 3, 4, 4, 5, 5, 6, 6, 7, 8, 9, 10, 11, 12, 12])
     n = min(n, maxres)
     ops = []
     paths = []
@@ -85,20 +85,37 @@ def gen_table(r, maxres=12):
         ops.append(("R", p, fl, attrs))
         if r.random() < 0.06 and paths:
             ops.append(("D", r.choice(paths)))
+        if r.random() < 0.03:
+            ops.append((r.choice(["U", "P"]), None))
+    return ops
+
+
+def many_ops(n):
+    """what the op "M <n>" stands for (same formula in harness/h_link.c and ocaml/d_link.ml)"""
+    ops = []
+    for k in range(n):
+        ops.append(("R", b"r/%d" % ((k * 7919) % 10007), k % 4,
+                    [(b"rt", b'"t%d s"' % (k % 5))] if k % 3 else []))
+        if k % 17 == 5:
+            ops.append(("D", b"r/%d" % (((k - 3) * 7919) % 10007)))
     return ops
 
 
 def table_of_ops(ops):
     """registration order, attributes in link_attr order (last added first)"""
     tbl = []
+    flat = []
     for op in ops:
+        flat += many_ops(op[1]) if op[0] == "M" else [op]
+    for op in flat:
         if op[0] == "R":
             _, p, fl, attrs = op
             tbl = [x for x in tbl if x["path"] != p]
             tbl.append({"path": p, "obs": bool(fl & 1), "osc": bool(fl & 2),
                         "attrs": list(reversed(attrs))})
-        else:
+        elif op[0] == "D":
             tbl = [x for x in tbl if x["path"] != op[1]]
+        # "U" / "P": the unknown-resource and proxy-URI resources are kept outside the table
     return tbl
 
 
@@ -110,8 +127,12 @@ def ops_tokens(ops):
             out += ["R", tok(p), str(fl), str(len(attrs))]
             for nm, v in attrs:
                 out += [tok(nm), "~" if v is None else tok(v)]
-        else:
+        elif op[0] == "D":
             out += ["D", tok(op[1])]
+        elif op[0] == "M":
+            out += ["M", str(op[1])]
+        else:
+            out += [op[0]]
     return out
 
 
@@ -183,9 +204,9 @@ def gen_filter(r, ops):
     """-> (kind, None | bytes)"""
     tbl = table_of_ops(ops)
     x = r.random()
-    if x < 0.07:
+    if x < 0.04:
         return "none", None
-    if x < 0.10:
+    if x < 0.06:
         return "empty", b""
     cands = []
     for e in tbl:
@@ -208,12 +229,12 @@ def gen_filter(r, ops):
             return "href-edge", b"href=" + r.choice([b"", b"/", b"*", b"/*", b"//", b"**", b"/" + p + b"/"])
         k = r.randint(0, len(p))
         return "href-cut", b"href=" + lead + p[:k]
-    if x < 0.88 and cands:
+    if x < 0.93 and cands:
         nm, v = r.choice(cands)
         u = v[1:-1] if (v[:1] == b'"' and len(v) >= 2) else v
         ts = py_tokens(u) or [b""]
         t = r.choice(ts)
-        y = r.random()
+        y = r.random() * 0.92 if r.random() < 0.8 else r.random()
         if y < 0.22:
             return "attr-token", nm + b"=" + t
         if y < 0.42:
